@@ -919,6 +919,11 @@ def equal(ex, a, b):
         if oa.sym is not None and ob.sym is not None and oa.sym.k == ob.sym.k:
             return mk_bool(oa.sym.t == ob.sym.t)
         sa, sb = list_as_sym(ex, a), list_as_sym(ex, b)
+        # an empty concrete list has no element kind of its own: it takes the kind of the other side
+        if sa is None and sb is not None and not oa.items:
+            sa = list_as_sym(ex, a, sb.k[1])
+        if sb is None and sa is not None and not ob.items:
+            sb = list_as_sym(ex, b, sa.k[1])
         if sa is not None and sb is not None and sa.k == sb.k:
             return mk_bool(sa.t == sb.t)
         raise Unsupported('list equality with mixed spines')
